@@ -248,6 +248,10 @@ class Builder:
             if 'bools' in self.F:
                 src.append(BOOL)
             return Is(self.expr(self.pick(src), depth - 1), INT, t=INT)
+        if k == 'index' and 'bytes' in self.F and self.chance(20):
+            lit_ = self.mixed_literal(INT, depth)
+            if lit_ is not None:
+                return Index(lit_, Lit('int', self.integer(0, len(lit_.elems) - 1), None, t=INT), t=INT)
         if k == 'index':
             vs = self.vars_of(lambda v: is_arr(v.ty) and v.ty[1] == INT)
             if vs:
@@ -291,6 +295,10 @@ class Builder:
             if 'bools' in self.F and self.chance(25):
                 return Is(self.bool_expr(depth - 1), BYTE, t=BYTE)
             return Is(self.int_expr(depth - 1), BYTE, t=BYTE)
+        if k == 'index' and self.chance(20):
+            lit_ = self.mixed_literal(BYTE, depth)
+            if lit_ is not None:
+                return Index(lit_, Lit('int', self.integer(0, len(lit_.elems) - 1), None, t=INT), t=BYTE)
         if k == 'index':
             vs = self.vars_of(lambda v: (is_arr(v.ty) and v.ty[1] == BYTE) or v.ty == STRING)
             # string indexing needs a static length to stay in bounds: only arrays and known strings
@@ -408,6 +416,35 @@ class Builder:
             return self.string_lit()
         raise AssertionError(k)
 
+    def mixed_literal(self, want, depth):
+        """Array literal mixing int literals and byte-typed expressions whose element type, by the documented
+        rule (first element type, in order of occurrence, that every element can be coerced to), is `want`."""
+        n = self.integer(2, 4)
+        elems = []
+        for _ in range(n):
+            if self.chance(50):
+                elems.append(Lit('int', self.integer(0, 255), None, t=INT))
+            else:
+                elems.append(self.byte_expr(min(depth, 1)))
+        if want == INT and self.chance(50):
+            elems.append(self.int_expr(0) if self.chance(50) else Lit('int', self.integer(256, 999), None, t=INT))
+        # type by rule
+        order = []
+        for e in elems:
+            if e.t not in order:
+                order.append(e.t)
+
+        def ok(e, t):
+            return e.t == t or (e.t == BYTE and t == INT) or (e.t == INT and t == BYTE and isinstance(e, Lit))
+        ty = None
+        for t in order:
+            if all(ok(e, t) for e in elems):
+                ty = t
+                break
+        if ty != want:
+            return None
+        return ArrLit(elems, t=arr(ty, True))
+
     def spec_expr(self, ty, depth):
         # a ?? b: both operands ordinary context
         if self.chance(25):
@@ -445,8 +482,10 @@ class Builder:
                 args.append(self.array_arg(p.ty, depth))
             elif f.recursive and p.name == 'depth':
                 args.append(Lit('int', self.integer(0, self.size['rec_depth']), None, t=INT))
-            elif p.ty == INT and 'bytes' in self.F and self.chance(8) and not self.is_overloaded(f.name):
+            elif p.ty == INT and 'bytes' in self.F and self.chance(30 if self.is_overloaded(f.name) else 8):
                 args.append(self.byte_expr(depth))          # byte -> int coercion in a call
+            elif p.ty == BYTE and self.is_overloaded(f.name) and self.chance(30):
+                args.append(Lit('int', self.integer(0, 255), None, t=INT))   # literal -> byte coercion
             else:
                 args.append(self.expr(p.ty, depth))
         return Call(f.name, args, t=f.ret)
@@ -1058,7 +1097,7 @@ class Builder:
             if 'recursion' in self.F and self.chance(20):
                 params = [Param(INT, False, 'depth')] + self.gen_params(self.integer(0, 2))
                 self.gen_func(flavor, params=params, recursive=True)
-            elif 'overloads' in self.F and self.chance(18) and flavor == '':
+            elif 'overloads' in self.F and self.chance(self.size.get('overload_pct', 18)) and flavor == '':
                 self.gen_overload_set()
             else:
                 self.gen_func(flavor)
@@ -1087,6 +1126,11 @@ class Builder:
                 main.body.stmts.insert(len(main.body.stmts) - 1, call)
             else:
                 main.body.stmts.append(call)
+        # declaration order is free (all signatures are registered up front) except among overloads of one
+        # name, where it decides the fallback; shuffling puts call sites between and inside overload sets
+        if self.chance(60):
+            order = self.draw(st.permutations(list(range(len(self.func_nodes)))))
+            self.func_nodes = [self.func_nodes[i] for i in order]
         return Program(globs, self.func_nodes), vals
 
 
